@@ -84,7 +84,15 @@ fn check_attr_views(w: &mut World, e: Lid, h: Node, mm: &ModelMap, stats: &mut S
             a.values().cloned().collect::<Vec<_>>(),
             a.nodes().collect::<Vec<_>>(),
             a.to_vec().into_iter().map(|(k, val)| (nm_of(x, k), val)).collect::<Vec<_>>(),
-            a.to_hashmap().len(),
+            {
+                let hm = a.to_hashmap();
+                // the hash map must hold exactly the entries of iter()
+                if a.iter().any(|(k, val)| hm.get(&k) != Some(val)) {
+                    usize::MAX
+                } else {
+                    hm.len()
+                }
+            },
         )
     };
     // ---- mutable view (its read API is duplicated code)
